@@ -176,9 +176,14 @@ int main(void)
         alarm(alarm_seconds);
         ctx = flatcc_create_context(&opts, name, on_error, 0);
         if (!ctx) {
+            /* refused option set: nothing may stay allocated and a diagnostic must have been delivered */
             alarm(0);
-            fprintf(proto, "R noctx %d n 0 0 0 %s\n", ndiag, first_diag[0] ? first_diag : "-"); fflush(proto);
             free(zbuf);
+#ifdef HAVE_LSAN
+            leak = __lsan_do_recoverable_leak_check() ? 1 : 0;
+#endif
+            fprintf(proto, "R noctx %d n 0 0 %d %s\n", ndiag, leak, first_diag[0] ? first_diag : "-"); fflush(proto);
+            if (leak) _exit(0);
             continue;
         }
         rc = is_buf ? flatcc_parse_buffer(ctx, zbuf, len) : flatcc_parse_file(ctx, name);
